@@ -370,6 +370,8 @@ def main():
     ap.add_argument('--no-evidence', action='store_true')
     a = ap.parse_args()
     pid = a.pid
+    global TIER
+    TIER = a.tier
     seed = int(os.environ.get('VERIF_SEED', '0') or 0)
     t0 = time.time()
     outdir = os.path.join(WORK, pid)
@@ -590,18 +592,25 @@ def main():
 
 
 _REPLAY_CACHE = {}
+TIER = 'quick'
 
 
 def run_replays(pid, repo):
     """Native replay tests of this property against the real crate (real bytes/futures, public API, hooks on).
-    Bounded stand-in: each test is one concrete history.  Returns list of dicts {test, ok, passed, failed, output}."""
+    Bounded stand-in: each test is one concrete history.  Returns list of dicts {test, ok, passed, failed, output}.
+    In the thorough tier every test is also run with `--release` (no overflow checks, no debug assertions)."""
     if (pid, repo) in _REPLAY_CACHE:
         return _REPLAY_CACHE[(pid, repo)]
     reg = os.path.join(ROOT, 'replay', 'registry.json')
     tests = json.load(open(reg)).get(pid, []) if os.path.exists(reg) else []
     res = []
-    for t in tests:
-        p = subprocess.run([os.path.join(ROOT, 'tools', 'replay.sh'), repo, t], capture_output=True, text=True)
+    modes = [('', {})]
+    if TIER == 'thorough':
+        modes.append((' (release)', {'VERIF_REPLAY_RELEASE': '1'}))
+    for t0, (suffix, extra_env) in [(t, m) for m in modes for t in tests]:
+        t = t0
+        p = subprocess.run([os.path.join(ROOT, 'tools', 'replay.sh'), repo, t], capture_output=True, text=True, env=dict(os.environ, **extra_env))
+        t = t0 + suffix
         out = p.stdout + '\n' + p.stderr
         m = re.search(r'test result: (\w+)\. (\d+) passed; (\d+) failed', out)
         if m:
